@@ -17,13 +17,14 @@ AllNames == UNION {NamesOf(i) : i \in 1..N}
 
 Cases == {"asis", "upper", "mixed"}
 Ws == {"none", "sp", "tab", "both"}
-Params == {"none", "charset", "quoted", "two", "rfc2231", "wscharset", "tabparam"}
+Params == {"none", "charset", "quoted", "two", "rfc2231", "wscharset", "tabparam", "long"}    \* long: a 300-byte parameter value
 Decos == [c : Cases, l : Ws, t : Ws, p : Params]
 Plain == [c |-> "asis", l |-> "none", t |-> "none", p |-> "none"]
 \* a small covering set of decorations for the quadratic EqualsAny queries
 FewDecos == {Plain, [c |-> "upper", l |-> "sp", t |-> "none", p |-> "charset"], [c |-> "mixed", l |-> "tab", t |-> "both", p |-> "quoted"],
              [c |-> "asis", l |-> "both", t |-> "sp", p |-> "rfc2231"], [c |-> "upper", l |-> "none", t |-> "tab", p |-> "two"],
-             [c |-> "asis", l |-> "none", t |-> "none", p |-> "wscharset"], [c |-> "mixed", l |-> "sp", t |-> "none", p |-> "tabparam"]}
+             [c |-> "asis", l |-> "none", t |-> "none", p |-> "wscharset"], [c |-> "mixed", l |-> "sp", t |-> "none", p |-> "tabparam"],
+             [c |-> "asis", l |-> "none", t |-> "sp", p |-> "long"]}
 
 \* expected answers, from the statement
 IsExpected(i, name) == name \in NamesOf(i)
